@@ -447,9 +447,9 @@ def run_shard(ctx):
             return t
         return make
 
-    ctx.run_given(mk(tcases), ctx.budget(3200, 150000), salt=1)
-    ctx.run_given(mk(rcases), ctx.budget(5000, 100000), salt=2)
-    ctx.run_given(mk(pcases), ctx.budget(4000, 80000), salt=3)
+    ctx.run_given(mk(tcases), ctx.budget(3200, 60000), salt=1)
+    ctx.run_given(mk(rcases), ctx.budget(5000, 60000), salt=2)
+    ctx.run_given(mk(pcases), ctx.budget(4000, 50000), salt=3)
 
     srcs = [{"kind": "template", "name": t} for t in corpus.TEMPLATES]
     for p in corpus.sample_files():
@@ -459,4 +459,4 @@ def run_shard(ctx):
     dedit = st.fixed_dictionaries({"k": st.sampled_from(["paragraph", "meta", "add_file", "set_part", "del_part", "read", "save"])})
     dcases = st.fixed_dictionaries({"kind": st.just("document"), "source": st.sampled_from(srcs), "what": st.sampled_from(["document", "document", "xmlpart", "container"]),
                                     "pre": st.lists(dedit, max_size=3), "edits": st.lists(st.tuples(side, dedit), min_size=1, max_size=4)})
-    ctx.run_given(mk(dcases), ctx.budget(1600, 40000), salt=4)
+    ctx.run_given(mk(dcases), ctx.budget(1600, 20000), salt=4)
